@@ -422,17 +422,35 @@ def value_states(fn, domains, observe, other=-99999):
     parameter bindings of virtually inlined helpers), and calls observe(node, {decl id: value}) for every element
     reached in that state."""
     import itertools
-    keys = sorted(domains)
+    keys = sorted(domains, key=str)
     init = [tuple(c) for c in itertools.product(*[list(sorted(set(domains[k]))) + [other] for k in keys])]
     bm = fn.bind_map()
+
+    # a key may also be the canonical text of an expression (e.g. `spec[i]`): every occurrence of that expression, and
+    # every once-initialised local that holds it, has the value of the key
+    from .ir import canon as _canon
+    ekeys = [k for k in keys if isinstance(k, str)]
+    alias = {}
+    if ekeys:
+        for n_ in fn.all_nodes():
+            if n_.kind == "DeclStmt":
+                for d_ in n_.get("decls", []):
+                    if "init" in d_ and _canon(fn.node(d_["init"]).strip()) in ekeys and not _reassigned_local(fn, d_["d"]):
+                        alias[d_["d"]] = _canon(fn.node(d_["init"]).strip())
 
     def leaf_val(st):
         def val(x):
             x = x.strip()
+            if ekeys and x.kind != "DeclRefExpr":
+                t_ = _canon(x)
+                if t_ in ekeys:
+                    return st[keys.index(t_)]
             if x.kind == "DeclRefExpr":
                 d = x.d["d"]
                 if d in bm:
                     return sem_eval(fn.node(bm[d]), val)
+                if d in alias:
+                    return st[keys.index(alias[d])]
                 if d in keys:
                     return st[keys.index(d)]      # `other` is a value distinct from every constant of the domain
                 if x.get("dk") == "EnumConstant" or x.get("cv") is not None:
@@ -461,6 +479,16 @@ def value_states(fn, domains, observe, other=-99999):
         return [st] if v == casev else []
 
     run(fn, init, transfer, refine, limit=400000, refine_switch=refine_switch)
+
+
+def _reassigned_local(fn, did):
+    for x in fn.all_nodes():
+        if x.kind in ("BinaryOperator", "CompoundAssignOperator") and str(x.get("op", "")).endswith("=") and x.op not in ("==", "!=", "<=", ">="):
+            if _var_of(x.children[0]) == did:
+                return True
+        if x.kind == "UnaryOperator" and x.op in ("++", "--", "&") and _var_of(x.children[0]) == did:
+            return True
+    return False
 
 
 def reaching_defs(fn, did, at_id):
@@ -500,4 +528,52 @@ def value_arms(fn, v, at):
         cur, hops = (ch[0] if ch else None), hops + 1
     anchor = cur if cur is not None and cur.id in pos else at
     return [(v, facts_at(fn, anchor.id))]
+
+
+def const_fold(fn, n, depth=0):
+    """Integer value of an expression built from literals, the constants clang already evaluated, and parameters of
+    virtually inlined helpers that are bound to such expressions (`limit` in `(limit - 9) / 10` bound to INT_MAX);
+    None if it is not a compile-time constant in that sense.  Unsigned results wrap to the width of the node."""
+    if n is None or depth > 12:
+        return None
+    x = n.strip()
+    c = x.cv() if x.kind not in ("DeclRefExpr", "MemberExpr") else (x.cv() if x.get("dk") == "EnumConstant" else None)
+    if c is not None:
+        return c
+    if x.kind == "DeclRefExpr":
+        bm = fn.bind_map()
+        if x.d.get("d") in bm:
+            return const_fold(fn, fn.node(bm[x.d["d"]]), depth + 1)
+        if x.cv() is not None:
+            return x.cv()
+        return None
+
+    def wrap(v):
+        bits = x.get("bits")
+        if v is None or not bits:
+            return v
+        if x.get("sgn") is False:
+            return v % (1 << bits)
+        return v
+    if x.kind == "BinaryOperator" and x.op in ("+", "-", "*", "/", "%", "<<", ">>", "&", "|"):
+        a, b = const_fold(fn, x.children[0], depth + 1), const_fold(fn, x.children[1], depth + 1)
+        if a is None or b is None:
+            return None
+        try:
+            if x.op in ("/", "%"):
+                if not b:
+                    return None
+                q = abs(a) // abs(b) * (1 if (a >= 0) == (b >= 0) else -1)      # C++ truncates toward zero
+                return wrap(q if x.op == "/" else a - b * q)
+            return wrap({"+": a + b, "-": a - b, "*": a * b, "<<": a << b, ">>": a >> b, "&": a & b, "|": a | b}[x.op])
+        except (ValueError, OverflowError):
+            return None
+    if x.kind == "UnaryOperator" and x.op in ("~", "-", "+") and x.children:
+        a = const_fold(fn, x.children[0], depth + 1)
+        if a is None:
+            return None
+        return wrap(~a if x.op == "~" else (-a if x.op == "-" else a))
+    if x.kind in ("CXXFunctionalCastExpr", "CStyleCastExpr", "CXXStaticCastExpr", "ParenExpr", "ImplicitCastExpr") and x.children:
+        return wrap(const_fold(fn, x.children[0], depth + 1))
+    return None
 
